@@ -436,9 +436,13 @@ fn is_offered(g: &Gs) -> bool {
 
 impl<'a> Generator<'a> {
     fn new(rng: &'a mut Rng, namespaces: Vec<String>, selector_label: Option<(String, String)>) -> Self {
+        Self::with_names(rng, namespaces, selector_label, 8)
+    }
+
+    fn with_names(rng: &'a mut Rng, namespaces: Vec<String>, selector_label: Option<(String, String)>, n_names: usize) -> Self {
         let fleet = format!("{}-{}", *rng.pick(&["lobby", "survival", "bedwars", "hub"]), lower(rng, 5));
         let mut names = BTreeSet::new();
-        while names.len() < 8 {
+        while names.len() < n_names {
             names.insert(format!("{fleet}-{}", lower(rng, 5)));
         }
         let mut names: Vec<String> = names.into_iter().collect();
@@ -648,6 +652,16 @@ impl<'a> Generator<'a> {
         let state = if self.rng.chance(3, 4) { "Ready" } else { "Allocated" };
         let mut g = self.new_server(&name, state);
         self.make_convertible(&mut g);
+        // now and then two servers report the same address and port (a host port handed out twice,
+        // a stale report of a server that is about to go): both are ready, both are offered
+        if self.rng.chance(1, 4) {
+            let offered = self.offered();
+            if !offered.is_empty() {
+                let twin = self.cur.get(self.rng.pick(&offered)).cloned().expect("exists");
+                g.address = twin.address.clone();
+                g.ports = twin.ports.clone();
+            }
+        }
         Some(self.commit("ADDED", g))
     }
 
@@ -886,6 +900,36 @@ pub fn generate_long_life(seed: u64, index: u64) -> History {
             steps.push(Step::Event(ev));
         }
     }
+    History { id: index, namespace: Some(ns), label_selector: None, page_size: Some(500), initial, pre_events: vec![], stream_lag: None, patient: true, steps }
+}
+
+/// A big fleet: more than a thousand ready servers at once (two list pages and more), servers that
+/// join while the fleet is that big, a re-list in between. Every one of them is offered.
+pub fn generate_big_fleet(seed: u64, index: u64) -> History {
+    let mut rng = Rng::stream(seed, index ^ 0xb1f_0000);
+    let tag = format!("s{seed}-fleet{index}");
+    let ns = format!("vp-{tag}");
+    let mut g = Generator::with_names(&mut rng, vec![ns.clone()], None, 1150);
+    let mut initial = Vec::new();
+    for _ in 0..1040 {
+        if let Some(ev) = g.ev_add_offered(false) {
+            initial.push(ev.object);
+        }
+    }
+    let mut steps = Vec::new();
+    for _ in 0..12 {
+        if let Some(ev) = g.ev_add_offered(false) {
+            steps.push(Step::Event(ev));
+        }
+    }
+    let (class_used, offline) = g.change(0);
+    steps.push(Step::Fault(Fault { kind_label: FAULT_KINDS[3].to_string(), change_label: CHANGE_CLASSES[class_used].to_string(), sever: Sever::Gone, resume_gone: false, offline, list_fail: None }));
+    for _ in 0..6 {
+        if let Some(ev) = g.ev_add_offered(false) {
+            steps.push(Step::Event(ev));
+        }
+    }
+    steps.push(Step::Event(g.ev_random()));
     History { id: index, namespace: Some(ns), label_selector: None, page_size: Some(500), initial, pre_events: vec![], stream_lag: None, patient: true, steps }
 }
 
